@@ -1,14 +1,10 @@
-(* C09, sub-field layer: proofs.
-   1. [accessors_conform]: over the regenerated descriptors, every accessor pair listed in Spec/TS24501Fields.v addresses
-      exactly the bits of its field, except the listed deviations (computation over the finite table).
-   2. [accessor_semantics]: what the structural check means -- for ALL octet values the conforming getter returns the value the
-      table's field holds and the conforming setter stores into exactly that field (model = table semantics).
-   3. [field_store_load]: the table semantics itself: load after store gives the stored value back, the length and every bit
-      outside the field are unchanged.
-   Octet-level facts about masks and shifts are established by exhaustive sweeps over 0..255 (forallb ... = true by
-   vm_compute) and lifted with forallb_forall. *)
+(* C09, sub-field layer: the regenerated accessor descriptors (Gen/NasAccessors.v) against the table.
+   [accessors_conform]: every accessor pair listed in Spec/TS24501Fields.v addresses exactly the bits of its field, except the
+      listed deviations (computation over the finite table).
+   [conforming_accessors_round_trip]: with Proofs/NasAccSem.v, for the 510 conforming pairs of the tree: setter then getter
+      gives the value back and no bit outside the field moves, for all octet values and all values that fit. *)
 From Coq Require Import NArith Arith Bool String List Lia.
-Require Import NasAcc NasAccessors TS24501Fields NasAccCheck.
+Require Import NasAcc NasAccessors TS24501Fields NasAccConform NasAccCheck NasAccSem.
 Import ListNotations.
 Open Scope N_scope.
 
@@ -53,367 +49,6 @@ Proof.
   destruct (find_acc acc_descs (ie_go l) (f_set f')) as [s'|]; [|contradiction].
   destruct (field_conforms (at_container t) (f_kind f') (a_body g') (a_body s')) eqn:E; [|contradiction].
   destruct H as [H|[]]. inversion H; subst. exact E.
-Qed.
-
-(* ------------------------------------------------------------------ finite ranges *)
-Fixpoint rng_from (n:nat) (a:N) : list N := match n with O => [] | S n' => a :: rng_from n' (N.succ a) end.
-Definition rng (n:nat) : list N := rng_from n 0.
-Lemma in_rng_from n : forall a x, a <= x -> x < a + N.of_nat n -> In x (rng_from n a).
-Proof.
-  induction n as [|n IH]; intros a x H1 H2; [lia|]. cbn [rng_from].
-  destruct (N.eq_dec a x) as [->|Hne]; [now left|]. right. apply IH; lia.
-Qed.
-Lemma in_rng x n : x < N.of_nat n -> In x (rng n).
-Proof. intro H. apply in_rng_from; lia. Qed.
-Lemma forallb_rng (P:N -> bool) n : forallb P (rng n) = true -> forall x, x < N.of_nat n -> P x = true.
-Proof. intros H x Hx. rewrite forallb_forall in H. apply H. now apply in_rng. Qed.
-Lemma forallb_seq0 (P:nat -> bool) n : forallb P (seq 0 n) = true -> forall i, (i < n)%nat -> P i = true.
-Proof. intros H i Hi. rewrite forallb_forall in H. apply H. apply in_seq. lia. Qed.
-
-Lemma bits_ok_range hi lo : bits_ok hi lo = true -> (1 <= lo /\ lo <= hi /\ hi <= 8)%nat.
-Proof.
-  unfold bits_ok. rewrite !andb_true_iff. intros [[H1 H2] H3].
-  apply Nat.leb_le in H1. apply Nat.leb_le in H2. apply Nat.leb_le in H3. lia.
-Qed.
-Lemma pw_le_256 w : (w <= 8)%nat -> pw w <= 256.
-Proof. intro H. unfold pw. change 256 with (2 ^ 8). apply N.pow_le_mono_r; lia. Qed.
-
-(* ------------------------------------------------------------------ octet-level sweeps *)
-(* getter: mask, shift *)
-Definition G_check (hi lo:nat) (mask x:N) : bool :=
-  N.shiftr (N.land x mask) (N.of_nat (lo - 1)) =? (x / pw (lo - 1)) mod pw (hi - lo + 1).
-Definition G_cond (hi lo:nat) (mask:N) : bool :=
-  let sh := N.of_nat (lo - 1) in bits_ok hi lo && (N.shiftl (N.shiftr mask sh) sh =? fmask hi lo).
-Lemma G_fin :
-  forallb (fun hi => forallb (fun lo => forallb (fun mask =>
-    if G_cond hi lo mask then forallb (G_check hi lo mask) (rng 256) else true) (rng 256)) (seq 0 9)) (seq 0 9) = true.
-Proof. vm_cast_no_check (eq_refl true). Qed.
-Lemma G_all hi lo mask x :
-  bits_ok hi lo = true -> mask < 256 -> N.shiftl (N.shiftr mask (N.of_nat (lo - 1))) (N.of_nat (lo - 1)) = fmask hi lo -> x < 256 ->
-  N.shiftr (N.land x mask) (N.of_nat (lo - 1)) = (x / pw (lo - 1)) mod pw (hi - lo + 1).
-Proof.
-  intros Hb Hm He Hx. pose proof (bits_ok_range _ _ Hb) as R.
-  pose proof G_fin as F. apply forallb_seq0 with (i := hi) in F; [|lia].
-  apply forallb_seq0 with (i := lo) in F; [|lia]. apply forallb_rng with (x := mask) in F; [|exact Hm].
-  unfold G_cond in F. rewrite Hb, He, N.eqb_refl in F. cbn [andb] in F.
-  apply forallb_rng with (x := x) in F; [|exact Hx]. unfold G_check in F. now apply N.eqb_eq in F.
-Qed.
-
-(* setter: keep mask, value mask, shift, + or |; and the store/load facts of the table's arithmetic *)
-Definition stored (hi lo:nat) (x v:N) : N :=
-  x - ((x / pw (lo - 1)) mod pw (hi - lo + 1)) * pw (lo - 1) + v * pw (lo - 1).
-Definition S_check (hi lo:nat) (x v:N) : bool :=
-  let sh := N.of_nat (lo - 1) in
-  let a := N.land x (255 - fmask hi lo) in let b := u8 (N.shiftl (N.land v (pw (hi - lo + 1) - 1)) sh) in
-  let x' := stored hi lo x v in
-  (comb OpPlus a b =? x') && (comb OpOr a b =? x') && (x' <? 256) &&
-  ((x' / pw (lo - 1)) mod pw (hi - lo + 1) =? v) &&
-  forallb (fun b => if (lo - 1 <=? b)%nat && (b <? hi)%nat then true
-                    else Bool.eqb (N.testbit x' (N.of_nat b)) (N.testbit x (N.of_nat b))) (seq 0 8).
-Lemma S_fin :
-  forallb (fun hi => forallb (fun lo =>
-    if bits_ok hi lo then forallb (fun x => forallb (S_check hi lo x) (rng (2 ^ (hi - lo + 1)))) (rng 256) else true) (seq 0 9)) (seq 0 9) = true.
-Proof. vm_cast_no_check (eq_refl true). Qed.
-Lemma pw_nat w : pw w = N.of_nat (2 ^ w).
-Proof. unfold pw. rewrite Nat2N.inj_pow. reflexivity. Qed.
-Lemma S_all hi lo x v : bits_ok hi lo = true -> x < 256 -> v < pw (hi - lo + 1) -> S_check hi lo x v = true.
-Proof.
-  intros Hb Hx Hv. pose proof (bits_ok_range _ _ Hb) as R.
-  pose proof S_fin as F. apply forallb_seq0 with (i := hi) in F; [|lia].
-  apply forallb_seq0 with (i := lo) in F; [|lia]. rewrite Hb in F.
-  apply forallb_rng with (x := x) in F; [|exact Hx]. apply forallb_rng with (x := v) in F; [exact F|].
-  now rewrite <- pw_nat.
-Qed.
-
-(* ------------------------------------------------------------------ lists *)
-Lemma upd_put st i x : upd st i x = put st i x.
-Proof. revert i. induction st as [|y r IH]; intros [|i]; cbn; try reflexivity; now rewrite IH. Qed.
-
-Lemma put_spec st i x st' : put st i x = Some st' ->
-  List.length st' = List.length st /\ nth_error st' i = Some x /\ (forall j, j <> i -> nth_error st' j = nth_error st j).
-Proof.
-  revert i st'. induction st as [|y r IH]; intros [|i] st'; cbn; try discriminate.
-  - intro H. inversion H; subst. repeat split. intros [|j] Hj; [congruence|reflexivity].
-  - destruct (put r i x) as [r'|] eqn:E; [|discriminate]. intro H. inversion H; subst.
-    destruct (IH _ _ E) as (L & Hn & Ho). cbn. repeat split; [now rewrite L|exact Hn|].
-    intros [|j] Hj; [reflexivity|]. cbn. apply Ho. congruence.
-Qed.
-Lemma put_some st i x y : nth_error st i = Some y -> exists st', put st i x = Some st'.
-Proof.
-  revert i. induction st as [|z r IH]; intros [|i]; cbn; try discriminate; eauto.
-  intro H. destruct (IH _ H) as [r' E]. rewrite E. eauto.
-Qed.
-Lemma put_nth st i x st' d : put st i x = Some st' -> forall j, nth j st' d = if (j =? i)%nat then x else nth j st d.
-Proof.
-  revert i st'. induction st as [|y r IH]; intros [|i] st'; cbn; try discriminate.
-  - intro H. inversion H; subst. intros [|j]; reflexivity.
-  - destruct (put r i x) as [r'|] eqn:E; [|discriminate]. intro H. inversion H; subst.
-    intros [|j]; [reflexivity|]. cbn. now apply IH.
-Qed.
-
-Lemma octets_ok_nth st i x : octets_ok st = true -> nth_error st i = Some x -> x < 256.
-Proof.
-  unfold octets_ok. intros H E. rewrite forallb_forall in H. apply nth_error_In in E. apply H in E. now apply N.ltb_lt.
-Qed.
-Lemma octets_ok_put st i x st' : octets_ok st = true -> x < 256 -> put st i x = Some st' -> octets_ok st' = true.
-Proof.
-  revert i st'. induction st as [|y r IH]; intros [|i] st'; cbn; try discriminate.
-  - intros H Hx E. inversion E; subst. cbn. apply andb_true_iff in H as [_ H]. rewrite H.
-    now apply N.ltb_lt in Hx as ->.
-  - intros H Hx. destruct (put r i x) as [r'|] eqn:E; [|discriminate]. intro E'. inversion E'; subst. cbn.
-    apply andb_true_iff in H as [H1 H2]. rewrite H1. cbn. eapply IH; eauto.
-Qed.
-
-(* ------------------------------------------------------------------ 2. model = table semantics *)
-Ltac split_andb H := repeat (let H1 := fresh H in apply andb_true_iff in H as [H H1]).
-
-Lemma get_bits_sem o hi lo g st : get_conforms (FBits o hi lo) g = true -> octets_ok st = true ->
-  acc_get g st = spec_get (FBits o hi lo) st.
-Proof.
-  intros H Hst. destruct g; cbn [get_conforms] in H; try discriminate.
-  split_andb H. apply Nat.eqb_eq in H. subst i. apply N.ltb_lt in H2. apply N.eqb_eq in H1, H0. subst shift.
-  cbn [acc_get spec_get]. destruct (nth_error st o) as [x|] eqn:E; [|reflexivity].
-  do 2 f_equal. apply G_all; auto. eapply octets_ok_nth; eauto.
-Qed.
-
-Lemma set_bits_sem o hi lo s st v : set_conforms (FBits o hi lo) s = true -> octets_ok st = true ->
-  value_fits (FBits o hi lo) st v = true -> acc_set s st v = spec_set (FBits o hi lo) st v.
-Proof.
-  intros H Hst Hv. destruct s; cbn [set_conforms] in H; try discriminate.
-  split_andb H. apply Nat.eqb_eq in H. subst i. apply N.eqb_eq in H0, H1, H2. subst keep vmask shift.
-  unfold spec_set. rewrite Hv. cbn [negb]. destruct v as [n|bs]; [|cbn in Hv; discriminate].
-  cbn [value_fits] in Hv. apply N.ltb_lt in Hv.
-  cbn [acc_set]. destruct (nth_error st o) as [x|] eqn:E; [|reflexivity].
-  rewrite upd_put. f_equal.
-  pose proof (S_all hi lo x n H3 (octets_ok_nth _ _ _ Hst E) Hv) as C. unfold S_check in C. cbv zeta in C.
-  split_andb C. destruct op; [apply N.eqb_eq in C|apply N.eqb_eq in C3]; assumption.
-Qed.
-
-Lemma get_octets_sem first count g st : get_conforms (FOctets first count) g = true ->
-  acc_get g st = spec_get (FOctets first count) st.
-Proof.
-  intros H. destruct g; cbn [get_conforms] in H; try discriminate.
-  split_andb H. apply Nat.eqb_eq in H, H1, H2. subst lo hi n.
-  cbn [acc_get spec_get]. replace (first + count - first)%nat with count by lia. rewrite Nat.min_id, Nat.sub_diag.
-  cbn [repeat]. rewrite app_nil_r.
-  replace (first <=? first + count)%nat with true by (symmetry; apply Nat.leb_le; lia). reflexivity.
-Qed.
-
-Lemma set_octets_sem first count s st v : set_conforms (FOctets first count) s = true ->
-  value_fits (FOctets first count) st v = true -> acc_set s st v = spec_set (FOctets first count) st v.
-Proof.
-  intros H Hv. destruct s; cbn [set_conforms] in H; try discriminate.
-  split_andb H. apply Nat.eqb_eq in H, H1, H2. subst lo hi n.
-  unfold spec_set. rewrite Hv. cbn [negb]. destruct v as [x|bs]; [cbn in Hv; discriminate|].
-  cbn [value_fits] in Hv. apply andb_true_iff in Hv as [Hl _]. cbn [acc_set]. rewrite Hl.
-  apply Nat.eqb_eq in Hl.
-  replace (first <=? first + count)%nat with true by (symmetry; apply Nat.leb_le; lia). cbn [andb]. rewrite andb_true_r.
-  destruct (first + count <=? List.length st)%nat; [|reflexivity].
-  unfold copy_into. replace (first + count - first)%nat with count by lia. rewrite Hl, Nat.min_id.
-  rewrite <- Hl at 1. rewrite firstn_all. reflexivity.
-Qed.
-
-Lemma get_rest_sem first g st : get_conforms (FRest first) g = true -> acc_get g st = spec_get (FRest first) st.
-Proof.
-  intros H. destruct g; cbn [get_conforms] in H; try discriminate. apply Nat.eqb_eq in H. subst k. reflexivity.
-Qed.
-
-Lemma set_rest_sem first s st v : set_conforms (FRest first) s = true ->
-  value_fits (FRest first) st v = true -> acc_set s st v = spec_set (FRest first) st v.
-Proof.
-  intros H Hv. destruct s; cbn [set_conforms] in H; try discriminate. apply Nat.eqb_eq in H. subst k.
-  unfold spec_set. rewrite Hv. cbn [negb]. destruct v as [x|bs]; [cbn in Hv; discriminate|].
-  cbn [value_fits] in Hv. apply andb_true_iff in Hv as [Hl _]. apply Nat.eqb_eq in Hl. cbn [acc_set].
-  destruct (first <=? List.length st)%nat; [|reflexivity].
-  unfold copy_into. replace (List.length st - first)%nat with (List.length bs) by lia. rewrite Nat.min_id, firstn_all.
-  rewrite Hl, skipn_all, app_nil_r. reflexivity.
-Qed.
-
-(* two-octet fields *)
-Lemma span_ok_range w : span_ok w = true -> (9 <= w <= 11)%nat.
-Proof. unfold span_ok. rewrite andb_true_iff, !Nat.leb_le. lia. Qed.
-
-Definition G16_check (w:nat) (x y:N) : bool :=
-  u16 (u16 (N.shiftl x (N.of_nat (w - 8))) + (y / pw (16 - w)) mod pw (w - 8)) =? (256 * x + y) / pw (16 - w).
-Lemma G16_fin : forallb (fun w => forallb (fun x => forallb (G16_check w x) (rng 256)) (rng 256)) (seq 9 3) = true.
-Proof. vm_cast_no_check (eq_refl true). Qed.
-
-Lemma get_span_sem o w g st : get_conforms (FSpan o w) g = true -> octets_ok st = true ->
-  acc_get g st = spec_get (FSpan o w) st.
-Proof.
-  intros H Hst. destruct g; cbn [get_conforms] in H; try discriminate.
-  split_andb H. apply Nat.eqb_eq in H, H5. subst i j. apply N.eqb_eq in H0, H2, H3. subst sh1 sh2. apply N.ltb_lt in H1.
-  pose proof (span_ok_range _ H4) as R.
-  cbn [acc_get spec_get]. destruct (nth_error st o) as [x|] eqn:Ex; [|reflexivity].
-  destruct (nth_error st (S o)) as [y|] eqn:Ey; [|reflexivity]. do 2 f_equal.
-  pose proof (octets_ok_nth _ _ _ Hst Ex) as Hx. pose proof (octets_ok_nth _ _ _ Hst Ey) as Hy.
-  assert (Hb : bits_ok 8 (17 - w) = true) by (unfold bits_ok; rewrite !andb_true_iff, !Nat.leb_le; lia).
-  replace (16 - w)%nat with (17 - w - 1)%nat in * by lia.
-  rewrite (G_all 8 (17 - w) mask2 y Hb H1 H0 Hy).
-  replace (8 - (17 - w) + 1)%nat with (w - 8)%nat by lia.
-  pose proof G16_fin as F. rewrite forallb_forall in F. specialize (F w).
-  assert (Hin : In w (seq 9 3)) by (apply in_seq; lia). specialize (F Hin).
-  apply forallb_rng with (x := x) in F; [|exact Hx]. apply forallb_rng with (x := y) in F; [|exact Hy].
-  unfold G16_check in F. apply N.eqb_eq in F. replace (16 - w)%nat with (17 - w - 1)%nat in F by lia. exact F.
-Qed.
-
-Definition S16_check (w:nat) (y v:N) : bool :=
-  let X := v * pw (16 - w) + y mod pw (16 - w) in
-  (N.land (u8 (N.shiftr v (N.of_nat (w - 8)))) 255 =? X / 256) &&
-  (u8 (N.land y (255 - fmask 8 (17 - w)) + u8 (N.shiftl (u8 (N.land v (pw (w - 8) - 1))) (N.of_nat (16 - w)))) =? X mod 256).
-Lemma S16_fin : forallb (fun w => forallb (fun y => forallb (S16_check w y) (rng (2 ^ w))) (rng 256)) (seq 9 3) = true.
-Proof. vm_cast_no_check (eq_refl true). Qed.
-Definition M16_check (w:nat) (x y:N) : bool := (256 * x + y) mod pw (16 - w) =? y mod pw (16 - w).
-Lemma M16_fin : forallb (fun w => forallb (fun x => forallb (M16_check w x) (rng 256)) (rng 256)) (seq 9 3) = true.
-Proof. vm_cast_no_check (eq_refl true). Qed.
-
-Lemma set_span_sem o w s st v : set_conforms (FSpan o w) s = true -> octets_ok st = true ->
-  value_fits (FSpan o w) st v = true -> acc_set s st v = spec_set (FSpan o w) st v.
-Proof.
-  intros H Hst Hv. destruct s; cbn [set_conforms] in H; try discriminate.
-  split_andb H. apply Nat.eqb_eq in H, H6. subst i j. apply N.eqb_eq in H0, H1, H2, H3, H4. subst sh1 m1 keep2 vmask2 sh2.
-  pose proof (span_ok_range _ H5) as R.
-  unfold spec_set. rewrite Hv. cbn [negb]. destruct v as [n|bs]; [|cbn in Hv; discriminate].
-  cbn [value_fits] in Hv. apply N.ltb_lt in Hv. cbn [acc_set]. rewrite !upd_put.
-  destruct (nth_error st o) as [x|] eqn:Ex.
-  2:{ destruct (put st o _) as [st1|] eqn:E1; [|reflexivity]. exfalso.
-      destruct (put_spec _ _ _ _ E1) as (L & Hn & _). apply nth_error_None in Ex.
-      assert (Hne : nth_error st1 o <> None) by congruence. apply nth_error_Some in Hne. lia. }
-  destruct (nth_error st (S o)) as [y|] eqn:Ey.
-  2:{ destruct (put st o _) as [st1|] eqn:E1; [|reflexivity]. destruct (put_spec _ _ _ _ E1) as (_ & _ & Ho).
-      rewrite (Ho (S o)) by lia. rewrite Ey. reflexivity. }
-  pose proof (octets_ok_nth _ _ _ Hst Ex) as Hx. pose proof (octets_ok_nth _ _ _ Hst Ey) as Hy.
-  pose proof S16_fin as F. rewrite forallb_forall in F. specialize (F w).
-  assert (Hin : In w (seq 9 3)) by (apply in_seq; lia). specialize (F Hin).
-  apply forallb_rng with (x := y) in F; [|exact Hy]. apply forallb_rng with (x := n) in F; [|now rewrite <- pw_nat].
-  unfold S16_check in F. cbv zeta in F. apply andb_true_iff in F as [F1 F2]. apply N.eqb_eq in F1, F2.
-  pose proof M16_fin as M. rewrite forallb_forall in M. specialize (M w Hin).
-  apply forallb_rng with (x := x) in M; [|exact Hx]. apply forallb_rng with (x := y) in M; [|exact Hy].
-  unfold M16_check in M. apply N.eqb_eq in M. rewrite M, <- F1.
-  destruct (put st o _) as [st1|] eqn:E1; [|reflexivity].
-  destruct (put_spec _ _ _ _ E1) as (_ & _ & Ho). rewrite (Ho (S o)) by lia. rewrite Ey, upd_put, F2. reflexivity.
-Qed.
-
-Theorem accessor_semantics c k g s : field_conforms c k g s = true ->
-  forall st, octets_ok st = true ->
-    acc_get g st = spec_get k st /\ (forall v, value_fits k st v = true -> acc_set s st v = spec_set k st v).
-Proof.
-  unfold field_conforms. intros H st Hst. apply andb_true_iff in H as [H Hs]. apply andb_true_iff in H as [_ Hg].
-  destruct k.
-  - split; [now apply get_bits_sem|intros; now apply set_bits_sem].
-  - split; [now apply get_span_sem|intros; now apply set_span_sem].
-  - split; [now apply get_octets_sem|intros; now apply set_octets_sem].
-  - split; [now apply get_rest_sem|intros; now apply set_rest_sem].
-Qed.
-
-(* ------------------------------------------------------------------ 3. the table semantics: store then load *)
-(* the kinds for which the statements below are proved (two-octet fields of 9..11 bits) *)
-Definition kind_proved (k:fkind) : bool :=
-  match k with FSpan _ w => span_ok w | _ => kind_ok k end.
-
-Lemma octets_ok_app a b : octets_ok (a ++ b) = octets_ok a && octets_ok b.
-Proof. unfold octets_ok. apply forallb_app. Qed.
-Lemma In_firstn {A} (x:A) n l : In x (firstn n l) -> In x l.
-Proof. intro H. rewrite <- (firstn_skipn n l). apply in_or_app. now left. Qed.
-Lemma In_skipn {A} (x:A) n l : In x (skipn n l) -> In x l.
-Proof. intro H. rewrite <- (firstn_skipn n l). apply in_or_app. now right. Qed.
-Lemma octets_ok_firstn n st : octets_ok st = true -> octets_ok (firstn n st) = true.
-Proof. unfold octets_ok. rewrite !forallb_forall. intros H x Hx. apply H. eapply In_firstn; eauto. Qed.
-Lemma octets_ok_skipn n st : octets_ok st = true -> octets_ok (skipn n st) = true.
-Proof. unfold octets_ok. rewrite !forallb_forall. intros H x Hx. apply H. eapply In_skipn; eauto. Qed.
-Lemma nth_firstn_lt {A} (d:A) n l i : (i < n)%nat -> nth i (firstn n l) d = nth i l d.
-Proof.
-  revert n i. induction l as [|y r IH]; intros [|n] [|i] H; cbn; try reflexivity; try lia. apply IH. lia.
-Qed.
-Lemma nth_skipn {A} (d:A) k l i : nth i (skipn k l) d = nth (k + i) l d.
-Proof.
-  revert l. induction k as [|k IH]; intros [|y r]; cbn; try reflexivity. - now destruct i. - apply IH.
-Qed.
-
-(* two-octet store: the arithmetic of the table on the pair (x, y), independent of x below bit 16-w *)
-Definition L16_check (w:nat) (y n:N) : bool :=
-  let X := n * pw (16 - w) + y mod pw (16 - w) in
-  (X / 256 <? 256) && ((256 * (X / 256) + X mod 256) / pw (16 - w) =? n) &&
-  forallb (fun b => if (16 - w <=? b)%nat then true else Bool.eqb (N.testbit (X mod 256) (N.of_nat b)) (N.testbit y (N.of_nat b))) (seq 0 8).
-Lemma L16_fin : forallb (fun w => forallb (fun y => forallb (L16_check w y) (rng (2 ^ w))) (rng 256)) (seq 9 3) = true.
-Proof. vm_cast_no_check (eq_refl true). Qed.
-
-Theorem field_store_load k st v st' : kind_proved k = true -> octets_ok st = true -> spec_set k st v = Some st' ->
-  spec_get k st' = Some v /\ List.length st' = List.length st /\ octets_ok st' = true /\
-  forall i b, (b < 8)%nat -> in_field k (List.length st) i b = false ->
-    N.testbit (nth i st' 0) (N.of_nat b) = N.testbit (nth i st 0) (N.of_nat b).
-Proof.
-  intros Hk Hst. unfold spec_set. destruct (value_fits k st v) eqn:Hv; [|discriminate]. cbn [negb].
-  destruct k as [o hi lo|o w|first count|first]; cbn [kind_proved kind_ok] in Hk.
-  - (* bits of one octet *)
-    destruct v as [n|bs]; [|discriminate]. cbn [value_fits] in Hv. apply N.ltb_lt in Hv.
-    destruct (nth_error st o) as [x|] eqn:Ex; [|discriminate]. intro E.
-    fold (bits_ok hi lo) in Hk. pose proof (octets_ok_nth _ _ _ Hst Ex) as Hx.
-    pose proof (S_all hi lo x n Hk Hx Hv) as C. unfold S_check in C. cbv zeta in C. fold (stored hi lo x n) in E.
-    split_andb C. apply N.ltb_lt in C2. apply N.eqb_eq in C1.
-    destruct (put_spec _ _ _ _ E) as (L & Hn & Ho).
-    split; [cbn [spec_get]; rewrite Hn; now rewrite C1|]. split; [exact L|]. split; [eapply octets_ok_put; eauto|].
-    intros i b Hb Hf. rewrite (put_nth _ _ _ _ 0 E). destruct (i =? o)%nat eqn:Ei; [|reflexivity].
-    apply Nat.eqb_eq in Ei. subst i. rewrite (nth_error_nth _ _ 0 Ex).
-    cbn [in_field] in Hf. rewrite Nat.eqb_refl in Hf. cbn [andb] in Hf.
-    rewrite forallb_forall in C0. specialize (C0 b). rewrite Hf in C0. apply eqb_prop. apply C0. apply in_seq. lia.
-  - (* two octets *)
-    destruct v as [n|bs]; [|discriminate]. cbn [value_fits] in Hv. apply N.ltb_lt in Hv.
-    pose proof (span_ok_range _ Hk) as R.
-    destruct (nth_error st o) as [x|] eqn:Ex; [|discriminate]. destruct (nth_error st (S o)) as [y|] eqn:Ey; [|discriminate].
-    pose proof (octets_ok_nth _ _ _ Hst Ex) as Hx. pose proof (octets_ok_nth _ _ _ Hst Ey) as Hy.
-    assert (Hin : In w (seq 9 3)) by (apply in_seq; lia).
-    pose proof M16_fin as M. rewrite forallb_forall in M. specialize (M w Hin).
-    apply forallb_rng with (x := x) in M; [|exact Hx]. apply forallb_rng with (x := y) in M; [|exact Hy].
-    unfold M16_check in M. apply N.eqb_eq in M. rewrite M.
-    pose proof L16_fin as F. rewrite forallb_forall in F. specialize (F w Hin).
-    apply forallb_rng with (x := y) in F; [|exact Hy]. apply forallb_rng with (x := n) in F; [|now rewrite <- pw_nat].
-    unfold L16_check in F. cbv zeta in F. set (X := n * pw (16 - w) + y mod pw (16 - w)) in *.
-    split_andb F. apply N.ltb_lt in F. apply N.eqb_eq in F1.
-    destruct (put st o (X / 256)) as [st1|] eqn:E1; [|discriminate]. intro E2.
-    destruct (put_spec _ _ _ _ E1) as (L1 & Hn1 & Ho1). destruct (put_spec _ _ _ _ E2) as (L2 & Hn2 & Ho2).
-    assert (Hm : X mod 256 < 256) by (apply N.mod_lt; lia).
-    split; [cbn [spec_get]; rewrite (Ho2 o) by lia; rewrite Hn1, Hn2; now rewrite F1|].
-    assert (Hok1 : octets_ok st1 = true) by (eapply octets_ok_put; [exact Hst|exact F|exact E1]).
-    split; [congruence|]. split; [eapply octets_ok_put; [exact Hok1|exact Hm|exact E2]|].
-    intros i b Hb Hf. rewrite (put_nth _ _ _ _ 0 E2), (put_nth _ _ _ _ 0 E1). cbn [in_field] in Hf.
-    destruct (i =? o)%nat eqn:Ei; [cbn in Hf; discriminate|]. cbn [orb] in Hf.
-    destruct (i =? S o)%nat eqn:Ej; [|reflexivity]. cbn [andb] in Hf.
-    apply Nat.eqb_eq in Ej. subst i. rewrite (nth_error_nth _ _ 0 Ey).
-    rewrite forallb_forall in F0. specialize (F0 b). rewrite Hf in F0. apply eqb_prop. apply F0. apply in_seq. lia.
-  - (* whole octets *)
-    destruct v as [n|bs]; [discriminate|]. cbn [value_fits] in Hv. apply andb_true_iff in Hv as [Hl Hb]. apply Nat.eqb_eq in Hl.
-    destruct (first + count <=? List.length st)%nat eqn:Hle; [|discriminate]. apply Nat.leb_le in Hle.
-    intro E. inversion E; subst st'; clear E.
-    assert (Lf : List.length (firstn first st) = first) by (apply firstn_length_le; lia).
-    assert (Len : List.length (firstn first st ++ bs ++ skipn (first + count) st) = List.length st)
-      by (rewrite !app_length, Lf, skipn_length; lia).
-    split.
-    { cbn [spec_get]. rewrite Len. replace (first + count <=? List.length st)%nat with true by (symmetry; now apply Nat.leb_le).
-      do 2 f_equal. rewrite skipn_app, Lf, Nat.sub_diag. rewrite (skipn_all2 (firstn first st)) by lia. cbn [skipn app].
-      rewrite firstn_app, Hl, Nat.sub_diag. cbn [firstn]. rewrite app_nil_r. apply firstn_all2. lia. }
-    split; [exact Len|]. split.
-    { rewrite !octets_ok_app. rewrite octets_ok_firstn, octets_ok_skipn by assumption. unfold octets_ok. now rewrite Hb. }
-    intros i b _ Hf. cbn [in_field] in Hf. f_equal.
-    destruct (first <=? i)%nat eqn:H1.
-    + cbn [andb] in Hf. apply Nat.leb_le in H1. apply Nat.ltb_ge in Hf.
-      rewrite app_nth2 by lia. rewrite Lf. rewrite app_nth2 by lia. rewrite nth_skipn. f_equal. lia.
-    + apply Nat.leb_gt in H1. rewrite app_nth1 by lia. now apply nth_firstn_lt.
-  - (* the rest of the value *)
-    destruct v as [n|bs]; [discriminate|]. cbn [value_fits] in Hv. apply andb_true_iff in Hv as [Hl Hb]. apply Nat.eqb_eq in Hl.
-    destruct (first <=? List.length st)%nat eqn:Hle; [|discriminate]. apply Nat.leb_le in Hle.
-    intro E. inversion E; subst st'; clear E.
-    assert (Lf : List.length (firstn first st) = first) by (apply firstn_length_le; lia).
-    assert (Len : List.length (firstn first st ++ bs) = List.length st) by (rewrite app_length, Lf; lia).
-    split.
-    { cbn [spec_get]. rewrite Len. replace (first <=? List.length st)%nat with true by (symmetry; now apply Nat.leb_le).
-      do 2 f_equal. rewrite skipn_app, Lf, Nat.sub_diag. rewrite (skipn_all2 (firstn first st)) by lia. reflexivity. }
-    split; [exact Len|]. split.
-    { rewrite octets_ok_app, octets_ok_firstn by assumption. unfold octets_ok. now rewrite Hb. }
-    intros i b _ Hf. cbn [in_field] in Hf. f_equal.
-    destruct (first <=? i)%nat eqn:H1.
-    + cbn [andb] in Hf. apply Nat.ltb_ge in Hf. rewrite !nth_overflow by lia. reflexivity.
-    + apply Nat.leb_gt in H1. rewrite app_nth1 by lia. now apply nth_firstn_lt.
 Qed.
 
 (* the two together, for the accessor pairs of the tree: whatever the octets and whatever value fits the field,
